@@ -45,6 +45,8 @@ def prepare(tier, recs):
 def run_and_check(rec, F, cnt, prefix='C04', check_temp=True):
     cfg0 = rec['cfg']
     dt0 = DW.pilot_dt(cfg0)
+    if not (math.isfinite(dt0) and dt0 > 0):
+        raise core.Inconclusive('non-finite stability step from the initial state (undefined mobilities under this averaging rule)')
     total = sum(o['k'] for o in rec['ops'] if o['op'] == 'solve') * dt0
     cfg = DW.resolve_schedule(cfg0, total)
     m, info = DW.build(cfg)
